@@ -318,8 +318,12 @@ def relation_builder(ctx, rep, rule):
     M = T.mk(('attr', T.SELF, 'jobs'))
     resets = [e for e in an.events('STORE') if e.data['attr'] == A and e.data['aug'] is None]
     links = an.events('LINK')
-    rep.need(rule + ":reset", len(resets), 1, "resets of the reverse links")
-    rep.need(rule + ":link", len(links), 1, "link statements")
+    rep.check(bool(resets), rule, "%s resets the reverse links" % f.qualname, f.qualname,
+              "no statement resets job.%s of the members before relinking" % A,
+              "stale reverse links survive: jobs that no longer require a job are still listed (and started) after it")
+    rep.check(bool(links), rule, "%s links successors" % f.qualname, f.qualname,
+              "no statement adds a job to the reverse links of its requirements",
+              "the reverse relation is empty: no successor is ever found")
     for e in resets:
         o = e.data['obj']
         ok = o[0] == 'elem' and o[1] == M and e.data['val'][0] == 'union' and not e.data['val'][1]
